@@ -245,7 +245,7 @@ def layer_a_minmax_units(quick: bool) -> List[Tuple[str, List[Dict[str, Any]]]]:
                     for follower in (False, True):
                         if term == "END-OF-PDU" and follower:
                             continue
-                        for order in ((True, False) if base == "A_UNICODE2STRING" else (None,)):
+                        for order in ((True, False, None) if base == "A_UNICODE2STRING" else (None,)):  # None: attribute left out (= high-low)
                             for byte in (None, 1):  # byte 1: the value starts at an odd offset of the PDU
                                 if enc is not None and ((mn, mx) not in ((0, None), (2, 4)) or byte == 1):
                                     continue
@@ -269,7 +269,9 @@ def layer_a_lead_units(quick: bool, wide: bool = False) -> List[Tuple[str, List[
         for (lbits, bit) in ((4, 0), (4, 4), (8, 0), (16, 0), (12, 2)):
             if enc is not None and (lbits, bit) != (8, 0):
                 continue
-            for order in (True, False):
+            for order in (True, False, None):
+                if order is None and (lbits, bit) not in ((8, 0), (16, 0)):
+                    continue  # (attribute left out: the default, high-low, for the plain layouts)
                 vals = payloads_upto(kind, 4 if base != "A_UNICODE2STRING" else 4, enc_len_fn(base, enc))
                 # a long payload to cross 4-bit limits is C04's business; one 15-byte payload here
                 long15: Any = (b"\x41" * 15) if kind == "bytes" else ("A" * 15 if kind != "ucs2" else "A" * 7)
@@ -278,8 +280,10 @@ def layer_a_lead_units(quick: bool, wide: bool = False) -> List[Tuple[str, List[
                     u: Any = b"\x41" if kind == "bytes" else "A"
                     vals = vals + [u * 16, u * 255, u * 256, u * 65536]
                 for follower in (False, True):
-                    pid = f"ll_{base[2:5]}{(enc or 'x')[-1]}_{lbits}_{bit}_{'h' if order else 'l'}_{'f' if follower else 'l'}"
-                    dct = {"k": "LEAD", "base": base, "bits": lbits, "hilo": order}
+                    pid = f"ll_{base[2:5]}{(enc or 'x')[-1]}_{lbits}_{bit}_{ {True: 'h', False: 'l', None: 'n'}[order]}_{'f' if follower else 'l'}"
+                    dct = {"k": "LEAD", "base": base, "bits": lbits}
+                    if order is not None:
+                        dct["hilo"] = order
                     if enc is not None:
                         dct["enc"] = enc
                     progs.append(one_value_program(pid, {"dct": dct}, None, bit or None, vals, ("lead", base, f"l{lbits}"), follower=follower))
@@ -302,10 +306,12 @@ def layer_a_plen_units(quick: bool) -> List[Tuple[str, List[Dict[str, Any]]]]:
     ]
     for base, enc, vals in kinds:
         for layout in ("key-first", "key-after-by-position"):
-            for order in (True, False):
-                pid = f"pl_{base[2:5]}{(enc or 'x')[-1]}_{layout[4]}_{'h' if order else 'l'}"
+            for order in (True, False, None):
+                pid = f"pl_{base[2:5]}{(enc or 'x')[-1]}_{layout[4]}_{ {True: 'h', False: 'l', None: 'n'}[order]}"
                 keyid = f"L.LK.{pid}"
-                d = {"name": "d_" + pid, "dct": {"k": "PLEN", "base": base, "hilo": order, "key": "lk", "key_id": keyid}}
+                d = {"name": "d_" + pid, "dct": {"k": "PLEN", "base": base, "key": "lk", "key_id": keyid}}
+                if order is not None:
+                    d["dct"]["hilo"] = order
                 if enc is not None:
                     d["dct"]["enc"] = enc
                 kd = {"name": "k_" + pid, "dct": U8}
@@ -409,8 +415,9 @@ def library() -> List[Dict[str, Any]]:
         {"name": "b8", "dct": std("A_BYTEFIELD", 64)},
         {"kind": "struct", "name": "S_lead", "params": [P("VALUE", "v", dop="lead8")]},
         {"kind": "sfield", "name": "SFV", "of": "S_lead", "n": 2, "item_size": 3},  # static field of variable-length items
-        {"name": "linlim", "dct": U8, "phys": "A_UINT32", "cm": {"cat": "LINEAR", "i2p": [{"lo": 0, "hi": 200, "num": [0, 1], "den": [1]}]}},
-        {"kind": "emfield", "name": "EMT", "of": "S_item", "end_dop": "linlim", "term": "100"},  # end marker DOP that cannot convert every byte
+        # end marker DOP that cannot convert every byte and whose physical values differ from the raw ones: 100 + x on [0, 50]
+        {"name": "linlim", "dct": U8, "phys": "A_UINT32", "cm": {"cat": "LINEAR", "i2p": [{"lo": 0, "hi": 50, "num": [100, 1], "den": [1]}]}},
+        {"kind": "emfield", "name": "EMT", "of": "S_item", "end_dop": "linlim", "term": "120"},  # the marker is the byte 20 (physical 120)
         {"kind": "sfield", "name": "SF2", "of": "S_item", "n": 2, "item_size": 2},
         {"kind": "sfield", "name": "SF2p", "of": "S_item", "n": 2, "item_size": 3},
         {"kind": "dlfield", "name": "DL1", "of": "S_item", "offset": 1, "count": {"byte": 0, "dop": "u8"}},
@@ -467,6 +474,8 @@ def templates() -> Dict[str, Any]:
     reg("VTT", 1, lambda i: [{f"t{i}": "off"}, {f"t{i}": "auto"}], lambda i: [P("VALUE", f"t{i}", dop="tt")])
     reg("RES8", 1, lambda i: [{}], lambda i: [P("RESERVED", f"r{i}", bits=8)])
     reg("RES72", 9, lambda i: [{}], lambda i: [P("RESERVED", f"rw{i}", bits=72)])  # wider than any integer the bit packer extracts in one piece
+    reg("RES68b", 9, lambda i: [{}], lambda i: [P("RESERVED", f"rv{i}", bits=68, bit=4)])  # wide, at a bit position, spilling into a ninth byte
+    reg("RES8b4", 2, lambda i: [{}], lambda i: [P("RESERVED", f"rb{i}", bits=8, bit=4)])  # 8 bits at bit 4: two bytes
     reg("RES4", 1, lambda i: [{}], lambda i: [P("RESERVED", f"rh{i}", bits=4, bit=4)])
     reg("V8b4", 2, lambda i: [{f"vb{i}": 0}, {f"vb{i}": 0xA5}, {f"vb{i}": 255}], lambda i: [P("VALUE", f"vb{i}", dop="u8b4", bit=4)])
     reg("VF32", 4, lambda i: [{f"vf{i}": 1.5}, {f"vf{i}": 100.0}, {f"vf{i}": 0.0}], lambda i: [P("VALUE", f"vf{i}", dop="f32lim")])
@@ -537,9 +546,9 @@ def templates() -> Dict[str, Any]:
     reg("BEOP", None, lambda i: [{f"be{i}": b"\x41"}, {f"be{i}": b"\x00\x41\xff"}], lambda i: [P("VALUE", f"be{i}", dop="beop")], last_only=True)
     reg("LEAD", None, lambda i: [{f"ld{i}": b""}, {f"ld{i}": b"\x41\x42"}], lambda i: [P("VALUE", f"ld{i}", dop="lead8")])
     reg("SFV", 6, lambda i: [{f"sv{i}": [{"v": b""}, {"v": b"\x41\x42"}]}, {f"sv{i}": [{"v": b"\x41"}, {"v": b""}]}], lambda i: [P("VALUE", f"sv{i}", dop="SFV")])
-    reg("EMT", None, lambda i: [{f"et{i}": []}, {f"et{i}": [_item(250, 2)]}, {f"et{i}": [_item(0, 2), _item(3, 4)]}], lambda i: [P("VALUE", f"et{i}", dop="EMT")], last_only=True)
-    reg("EMTC", None, lambda i: [{f"eu{i}": []}, {f"eu{i}": [_item(250, 2)]}, {f"eu{i}": [_item(0, 2), _item(200, 4)]}],
-        lambda i: [P("VALUE", f"eu{i}", dop="EMT"), P("CODED-CONST", f"mt{i}", dct=U8, value=100)], dyn_end=True)
+    reg("EMT", None, lambda i: [{f"et{i}": []}, {f"et{i}": [_item(250, 2)]}, {f"et{i}": [_item(0, 2), _item(120, 4)]}], lambda i: [P("VALUE", f"et{i}", dop="EMT")], last_only=True)
+    reg("EMTC", None, lambda i: [{f"eu{i}": []}, {f"eu{i}": [_item(250, 2)]}, {f"eu{i}": [_item(120, 2), _item(200, 4)]}],
+        lambda i: [P("VALUE", f"eu{i}", dop="EMT"), P("CODED-CONST", f"mt{i}", dct=U8, value=20)], dyn_end=True)
     reg("TKS2", None, lambda i: [{f"tsa{i}": ("r1", _item(1, 2)), f"tsb{i}": ("r1", _item(3, 4))}, {f"tsa{i}": ("r2", 0x1234), f"tsb{i}": ("r2", 7)}],
         lambda i: [P("TABLE-KEY", f"tq{i}", table="T", id=f"L.TK.@PID@.{i}"), P("TABLE-STRUCT", f"tsa{i}", key=f"tq{i}", key_id=f"L.TK.@PID@.{i}"),
                    P("TABLE-STRUCT", f"tsb{i}", key=f"tq{i}", key_id=f"L.TK.@PID@.{i}")])
@@ -555,7 +564,7 @@ def templates() -> Dict[str, Any]:
 
 
 SIGMA_FULL = ["CC8", "CC16L", "CCNIB", "PC", "V8", "V12b", "V8b4", "VF32", "SLK", "VLIN", "VDEF", "VTT", "RES8", "RES4", "SYS", "LK", "TKS", "TKSROW", "SFLAT",
-              "SSUB", "SNEST", "SSIZED", "SF2", "SF2p", "DL1", "DL2", "EOP", "EMLAST", "EMCC", "MUXd", "MUXn", "MUXe", "MUXf", "SDYN", "EOPD", "DLD", "EMD", "MUXD", "EOPDE", "EOPLK", "SKB2", "SKB4", "VLDEF", "DTC", "DTCENV", "BZ", "BEOP", "LEAD", "SFV", "EMT", "EMTC", "TKS2", "CCMM", "LKSAME", "RES72", "MUXo", "TKSAME", "DTCL", "TKSN"]
+              "SSUB", "SNEST", "SSIZED", "SF2", "SF2p", "DL1", "DL2", "EOP", "EMLAST", "EMCC", "MUXd", "MUXn", "MUXe", "MUXf", "SDYN", "EOPD", "DLD", "EMD", "MUXD", "EOPDE", "EOPLK", "SKB2", "SKB4", "VLDEF", "DTC", "DTCENV", "BZ", "BEOP", "LEAD", "SFV", "EMT", "EMTC", "TKS2", "CCMM", "LKSAME", "RES72", "MUXo", "TKSAME", "DTCL", "TKSN", "RES68b", "RES8b4"]
 SIGMA_SYS = ["SYTS", "SYMINU", "SYHOUR", "SYTZ", "SYDAY", "SYWEEK", "SYMONT", "SYYEAR", "SYCENT", "SYTEST", "SYUSER"]
 SIGMA_3 = ["CC8", "V8", "V12b", "V8b4", "VDEF", "RES8", "LK", "TKS", "SFLAT", "SSIZED", "SF2p", "DL1", "EOP", "MUXd", "DTCENV", "BZ", "SDYN", "EOPD"]
 SIGMA_4 = ["CC8", "V12b", "SSIZED", "DL1", "MUXd", "BZ"]
